@@ -232,14 +232,11 @@ QueueOK(pd, qs) == \A q \in Queues : QueueCounters(qs[q]) = TruthQueue(pd, q)
 
 (***************************************************************************)
 (* Projection compared by C13: pods, nodes, workload counters, queues.      *)
-(* The GPU groups of a pod the actions are still trying to place (Pending,  *)
-(* or virtually evicted) are a caller scratch field: gpu_sharing assigns    *)
-(* them before Allocate / Pipeline and resets them to nil when the call     *)
-(* fails, outside any statement operation. They are normalised; what such a *)
-(* pod really holds is in the node's own entry, which is compared.         *)
+(* The GPU groups of a Pending pod are a caller scratch field (gpu_sharing  *)
+(* assigns them before Allocate / Pipeline; un-allocating does not and need *)
+(* not reset them): normalised.                                            *)
 (***************************************************************************)
-Scratch(st, virt) == st = "Pending" \/ (st = "Releasing" /\ virt)
-NormPod(r) == [st |-> r.st, node |-> r.node, groups |-> IF Scratch(r.st, r.virt) THEN <<>> ELSE r.groups, virt |-> r.virt]
+NormPod(r) == [st |-> r.st, node |-> r.node, groups |-> IF r.st = "Pending" THEN <<>> ELSE r.groups, virt |-> r.virt]
 ProjOf(pd, nds, jbs, qs) ==
   [pods |-> [p \in Pods |-> NormPod(pd[p])], nodes |-> nds,
    jobs |-> [j \in Jobs |-> JobCounters(jbs[j])], queues |-> [q \in Queues |-> QueueCounters(qs[q])]]
